@@ -31,13 +31,14 @@ static inline void gen_canon(const uint8_t *len, int n, uint16_t *code)
 	for (int i = 0; i < n; i++) code[i] = len[i] ? (uint16_t)next[len[i]]++ : 0;
 }
 
-struct tok { int len; int lit; int dist; }; /* len==0: literal `lit`; else match (len, dist) */
+struct tok { int len; int lit; int dist; }; /* len==0: literal `lit`; else match (len, dist); a match of length 258 with lit!=0 is written the OTHER valid way: symbol 284 + extra bits 31 (no encoder does, every decoder must take it) */
 
 static const uint16_t g_len_base[29] = { 3, 4, 5, 6, 7, 8, 9, 10, 11, 13, 15, 17, 19, 23, 27, 31, 35, 43, 51, 59, 67, 83, 99, 115, 131, 163, 195, 227, 258 };
 static const uint8_t g_len_extra[29] = { 0, 0, 0, 0, 0, 0, 0, 0, 1, 1, 1, 1, 2, 2, 2, 2, 3, 3, 3, 3, 4, 4, 4, 4, 5, 5, 5, 5, 0 };
 static const uint16_t g_dist_base[30] = { 1, 2, 3, 4, 5, 7, 9, 13, 17, 25, 33, 49, 65, 97, 129, 193, 257, 385, 513, 769, 1025, 1537, 2049, 3073, 4097, 6145, 8193, 12289, 16385, 24577 };
 static const uint8_t g_dist_extra[30] = { 0, 0, 0, 0, 1, 1, 2, 2, 3, 3, 4, 4, 5, 5, 6, 6, 7, 7, 8, 8, 9, 9, 10, 10, 11, 11, 12, 12, 13, 13 };
 static inline int gen_len_sym(int len) { int s = 28; if (len == 258) return 28; for (s = 27; s >= 0; s--) if (len >= g_len_base[s]) break; return s; }
+static inline int gen_tok_lsym(const struct tok *t) { return t->len == 258 && t->lit ? 27 : gen_len_sym(t->len); }
 static inline int gen_dist_sym(int dist) { int s; for (s = 29; s >= 0; s--) if (dist >= g_dist_base[s]) break; return s; }
 
 static inline void gen_block_hdr(struct bw *w, int bfinal, int type) { bw_bit(w, bfinal); bw_bits(w, type, 2); }
@@ -54,7 +55,7 @@ static inline void gen_tokens(struct bw *w, const struct tok *t, int nt, const u
 {
 	for (int i = 0; i < nt; i++) {
 		if (!t[i].len) { bw_code(w, ll_code[t[i].lit], ll_len[t[i].lit]); continue; }
-		int ls = gen_len_sym(t[i].len), ds = gen_dist_sym(t[i].dist);
+		int ls = gen_tok_lsym(&t[i]), ds = gen_dist_sym(t[i].dist);
 		bw_code(w, ll_code[257 + ls], ll_len[257 + ls]);
 		bw_bits(w, t[i].len - g_len_base[ls], g_len_extra[ls]);
 		bw_code(w, d_code[ds], d_len[ds]);
